@@ -1,13 +1,116 @@
 package main
 
 import (
+	"flag"
 	"fmt"
-
-	"golang.org/x/tools/go/packages"
+	"os"
+	"runtime/debug"
+	"runtime/pprof"
+	"sort"
+	"strconv"
+	"time"
 )
 
 func main() {
-	cfg := &packages.Config{Mode: packages.LoadAllSyntax, Dir: "/repo", Tests: false}
-	pkgs, err := packages.Load(cfg, "./...")
-	fmt.Println(len(pkgs), err)
+	prop := flag.String("prop", "", "property id (C01..C20)")
+	tier := flag.String("tier", "quick", "quick|thorough")
+	repo := flag.String("repo", "/repo", "repository root")
+	verif := flag.String("verif", "/verif", "verification directory (evidence, known findings)")
+	debugCmd := flag.String("debug", "", "debug command")
+	flag.Parse()
+	debug.SetGCPercent(800)
+	if t := os.Getenv("VERIF_TIER"); t != "" && *tier == "" {
+		*tier = t
+	}
+	seed, _ := strconv.ParseInt(os.Getenv("VERIF_SEED"), 10, 64)
+	if *debugCmd != "" {
+		if pf := os.Getenv("OJGCHECK_PROF"); pf != "" {
+			f, _ := os.Create(pf)
+			pprof.StartCPUProfile(f)
+			defer pprof.StopCPUProfile()
+		}
+		runDebug(*debugCmd, *repo, flag.Args())
+		return
+	}
+	if *prop == "" {
+		fmt.Fprintln(os.Stderr, "usage: ojgcheck -prop Cnn [-tier quick|thorough]")
+		os.Exit(2)
+	}
+	rep := NewReport(*prop, *tier, seed)
+	code := func() (code int) {
+		defer func() {
+			if r := recover(); r != nil {
+				rep.Errorf("checker panic: %v", r)
+				code = rep.Finish(*verif)
+				if code == 0 {
+					code = 2
+				}
+			}
+		}()
+		prog, err := LoadProgram(*repo, "", nil)
+		if err != nil {
+			rep.Errorf("%v", err)
+			return rep.Finish(*verif)
+		}
+		pk, fl, fn := prog.Stats()
+		rep.Analysed["packages"] = pk
+		rep.Analysed["files"] = fl
+		rep.Analysed["functions"] = fn
+		rule, ok := rules[*prop]
+		if !ok {
+			rep.Errorf("no rule set registered for %s", *prop)
+			return rep.Finish(*verif)
+		}
+		rule(prog, rep)
+		return rep.Finish(*verif)
+	}()
+	os.Exit(code)
+}
+
+var rules = map[string]func(*Program, *Report){}
+
+func runDebug(cmd, repo string, args []string) {
+	t0 := time.Now()
+	prog, err := LoadProgram(repo, "", nil)
+	if err != nil {
+		fmt.Println("ERR", err)
+		os.Exit(2)
+	}
+	fmt.Printf("loaded in %.2fs\n", time.Since(t0).Seconds())
+	switch cmd {
+	case "machine":
+		// args: rel type root [multi]
+		m, err := ExtractMachine(prog, args[0], args[1], []string{args[2]})
+		if err != nil {
+			fmt.Println("ERR", err)
+			os.Exit(2)
+		}
+		fmt.Println("tracked:", m.in.tracked, "stacks:", m.in.stackFld, "build:", m.in.buildFld, "handler:", m.in.handler != nil, "carried:", len(m.carried))
+		multi := len(args) > 3 && args[3] == "multi"
+		cfg := map[string]Val{"OnlyOne": vConstBool(!multi)}
+		starts, notes, err := m.Starts(args[2], cfg)
+		fmt.Println("starts:", len(starts), notes, err)
+		var sel []*State
+		for _, s := range starts {
+			fmt.Println("  ", m.StateString(s))
+			if b, ok := s.fields["OnlyOne"].isBool(); ok && b == !multi {
+				sel = append(sel, s)
+			}
+		}
+		st := &ExploreStats{}
+		dis, und := Explore(m, sel, multi, st, 16)
+		fmt.Printf("states=%d transitions=%d armruns=%d rounds=%d modes=%d in %.2fs\n", st.States, st.Transitions, st.ArmRuns, st.Rounds, len(st.Modes), time.Since(t0).Seconds())
+		var keys []string
+		for k := range dis {
+			keys = append(keys, k)
+		}
+		sort.Strings(keys)
+		for _, k := range keys {
+			d := dis[k]
+			fmt.Printf("DIS %s\n    %s\n    witness=%q x=[%s] y=%s %s\n", k, d.Detail, d.Witness, d.XState, d.YState, d.Pos)
+		}
+		for _, u := range und {
+			fmt.Println("UNDECIDED", u)
+		}
+	}
 }
